@@ -1198,6 +1198,11 @@ def check_memory_loop(run, ctx):
                         okk = False
                         run.bad('C05-P1', key + '/victim-half-removed', 'one iteration of the memory eviction loop removes %d store entr%s and %d queue key(s) (%s, policy %s)' % (
                             d['S-'], 'y' if d['S-'] == 1 else 'ies', d['Qrem'], fn.name, POL[p]), site=fn.name, oracle='one victim per iteration, removed from store and queue together')
+                    elif how == 'return' and d['S-'] >= 1 and d['cmp:oversize'] == 0:
+                        okk = False
+                        run.bad('C05-P1', key + '/leaves-after-one-eviction', 'after removing a victim the eviction loop of %s returns without comparing the total with max_memory again '
+                                '(policy %s): one eviction is not always enough, the cache can stay above max_memory' % (fn.name, POL[p]), site=fn.name,
+                                oracle='every eviction is followed by another fit test')
                     elif how == 'return' and d['S-'] == 0 and d['cmp:oversize'] == 0:
                         okk = False
                         run.bad('C05-P1', key + '/gives-up-with-a-victim-available', 'the total exceeds max_memory and the queue holds stored keys, but an iteration of the eviction loop of %s '
